@@ -79,7 +79,12 @@ func (vm *vm) run() error {
 		return vm.prog.constants[readUvarint()]
 	}
 
+	overflow := false
 	push := func(v value) {
+		if vm.tos == stackSize {
+			overflow = true
+			return
+		}
 		vm.stack[vm.tos] = v
 		vm.tos++
 		vm.stats.tosMax = max(vm.stats.tosMax, vm.tos)
@@ -351,6 +356,10 @@ func (vm *vm) run() error {
 
 		case opNOP:
 			// ( -- )
+		}
+
+		if overflow {
+			return vm.runtimeError("stack overflow")
 		}
 	}
 }
